@@ -23,6 +23,26 @@ CLAIMED = {
   "Trusted: Lean kernel + standard axioms; translator for VCS_SUBCOMMANDS_BY_NAME; str.format and shlex.split are modelled (tied by correspondence), hg itself is absent (fake executable).",
   "Lean 4 proof over a regenerated table (decide +kernel on the table, induction for the general lemmas) + correspondence",
   "DESIGN.md section 7, C12"),
+ "C05": (
+  "Lean 4 theorems C05_*: the reset rule (C05_reset_rule: a resettable part is reset iff some part to its left changed, for every field list), the increment rules (C05_incr_numeric), BUILD strictly increasing and TAG carried (via C17), final-has-no-NUM, --pin-date keeps parts incl. zero values, calendar never backwards (guard), optional groups omitted exactly when all parts zero (C05_optional_omission, all nestings) — about the executable model of v2version incr/_incr_numeric/_reset_rollover_fields/_format_segment_tree over the GENERATED tables. Tied to the code by ops parse/format/pattern_fields/incr and judged on the implementation by an independent reference reading of the README rules that predicts the exact new version string (also through `bumpver test`).",
+  "Trusted: Lean kernel + standard axioms; translator (tables, formatter kinds); correspondence; Python re / datetime modelled. Week 53 under WW/UU parts is known finding F-C02-week53.",
+  "Lean 4 proof (induction over field lists and segment trees) + correspondence + reference-implementation oracle",
+  "DESIGN.md section 7, C05"),
+ "C10": (
+  "Lean 4 theorems C10_* (14) about the executable model BV.plan of `bumpver update`'s step sequencing for ALL configurations, flag combinations, environments, file lists and EVERY failure position: rejection of contradictory flags first, documented order, gating of commit/tag/push/hooks, --dry purity, --no-fetch, dirty blocks before rewrite, stop at first failure, hook failure stops, hook environment, completeness on exit 0. Tied to the code by op plan: real `bumpver update` runs with fake git/hg on PATH (argv log, hook markers with both env vars, rewrite position probe) at random lattice points with failure injected at each command index.",
+  "Trusted: Lean kernel + standard axioms; correspondence sampling of the lattice; hg binary absent (fake executable); click option parsing exercised, not modelled.",
+  "Lean 4 proof (phase invariants over an effect trace) + correspondence with fake VCS executables",
+  "DESIGN.md section 7, C10"),
+ "C14": (
+  "Lean 4 theorems C14_*: calKey of every coherent calendar shape (22 shapes, padded/unpadded irrelevant for the key) is monotone in the date for ALL ordinals (C14_step, C14_fields_monotone, C14_dates_monotone; no year bound), is_valid_week_pattern rejects exactly the Y+V / G+W|U pairings (C14_rejected_iff) and each rejected pairing is non-monotone (witness dates), the future guard is the lexicographic comparison (C14_guard*). Tied to the code by op calinfo (thorough: every date 1000-01-01..9999-12-31) and weekpat; implementation oracle renders consecutive days through format_version and orders them with `packaging`.",
+  "Trusted: Lean kernel + standard axioms; datetime/strftime are modelled (tied by the all-dates correspondence); F-C14-doy366 is a known finding (hand-written day 366 of a common year).",
+  "Lean 4 proof (omega on a 400/100/4/1 year decomposition + decide over month tables) + exhaustive correspondence",
+  "DESIGN.md section 7, C14"),
+ "C16": (
+  "Lean 4 theorems C16_* (23): cmpKey/verLe is a total preorder on ALL parsed values with equality exactly key equality; agreement with an independently shaped PEP 440 spec (zero-padding vs stripping, phase ranks vs ±Infinity) for all well-formed versions and C16_parse_wf; canonical printing round trip incl. local segment, injectivity, idempotence; every legacy value below every PEP 440 value. Tied to the vendored setuptools_v65_version by ops pep_parse/pep_str/pep_cmp; implementation oracle checks the order laws and agreement with `packaging` 26.3.",
+  "Trusted: Lean kernel + standard axioms; the hand-written recogniser of VERSION_PATTERN is tied to the regex by correspondence; ASCII input only (non-ASCII answers unsupported).",
+  "Lean 4 proof (lawful comparison, spec refinement, parser round trip) + correspondence",
+  "DESIGN.md section 7, C16"),
 }
 
 PENDING_REASON = "not yet covered: model/theorems for this property are still being built (see DESIGN.md section 10 for the order of work); no check is claimed until its theorems are proved and tied to the code"
